@@ -94,6 +94,18 @@ def discover(f, found=None):
                     if ident != "RepeatableLockFuture":
                         ren[m.group(1)] = "RepeatableLockFuture"
 
+    # ---- Config: the buffer-size alignment helper = the non-public Config function returning usize that both parser
+    # constructors call (method on &self or associated function of the configured size)
+    cfg = [p for p in fns if p.startswith("Config::") and p.count("::") == 1 and restricted(p) and sig(p).replace(" ", "").endswith("->usize")]
+    ctor_callees = []
+    for ctor in ("parser::request::Parser::new", "parser::stream::Parser::new"):
+        cs_ = set()
+        for b_ in f.by_npath.get(ctor, []):
+            cs_ |= _callees(b_)
+        ctor_callees.append(cs_)
+    if len(ctor_callees) == 2:
+        propose("Config::aligned_bufsize", [p for p in cfg if p in ctor_callees[0] and p in ctor_callees[1]])
+
     # ---- parser::request -------------------------------------------------------------------------------------
     RP = "parser::request::Parser::"
     rmeths = [p for p in fns if p.startswith(RP) and p.count("::") == 3 and restricted(p)]
